@@ -183,6 +183,8 @@ type S struct {
 	Dst     *E
 	Line    int
 	Global  bool
+	// Semis: a for statement written with its two semicolons even when init and post are empty
+	Semis bool
 	// TopLevel: a statement of an Eval-style program outside any function: its declarations are
 	// package-level variables (printed in their ordinary form)
 	TopLevel bool
@@ -605,7 +607,7 @@ func (p *printer) stmt(s *S) {
 	case "for":
 		p.w("for ")
 		p.hdr++
-		if s.Init != nil || s.Post != nil {
+		if s.Init != nil || s.Post != nil || s.Semis {
 			if s.Init != nil {
 				p.w(p.simple(s.Init))
 			}
